@@ -16,7 +16,8 @@ ANCHORS = [('src/msmhelper/msm/timescales.py', ['_estimate_times', 'estimate_wai
 RULE = ('models estimated from random trajectories (2-6 states, any labels, lags 1-3), disjoint start/final sets of 1-3 states, 1-300 steps, '
         'waiting times / transition times in list and histogram form and msm.estimate_paths; the draws of the compiled generator are injected, so '
         'the realised chain is known and the output must be EXACTLY the event statistics of that chain (list: sorted durations x lag; histogram: '
-        'counts/(total*lag), edges k*lag). Malformed: overlapping / absent states. Non-trivial = >=1 event; distinct by (model, sets, steps, draws).')
+        'counts/(total*lag), edges k*lag); deterministic cyclic models with > 2^20 steps judged against the md extraction on the reconstructed '
+        'realisation; before each call the same frames split differently are analysed in the same process. Malformed: overlapping / absent states. Non-trivial = >=1 event; distinct by (model, sets, steps, draws).')
 RELATION = ('estimate_waiting_times / estimate_transition_times / estimate_paths under injected draws = Events.msmWtLoop / msmTtLoop / mdPaths on '
             'Mcmc.realised / Mcmc.chain of the code\'s own cumulative matrix (which C07 judges against the exact model)')
 TRUSTED = ['RNG state injection as in C07; np.random.choice of the start state is reseeded and recomputed by the harness',
@@ -44,6 +45,11 @@ def cases(tier, rng, boost=1):
     if tier != 'quick':
         yield dict(_mk('tt', BIG, 1, [1], [2], 310, True, 14, src='corpus-biglag', stretch=7200000), draws='long')
         yield dict(_mk('wt', BIG, 1, [0], [2], 310, False, 15, src='corpus-biglag', stretch=7200000), draws='long')
+    # deterministic chains (every row of T has a single 1): the realisation does not depend on the draws, so runs far longer than the
+    # ~300 injectable draws can be judged exactly: the result must be the md extraction on the (reconstructed) realisation
+    for steps in ((1 << 20) + 5, 5 * (1 << 19) + 7) if tier == 'quick' else ((1 << 20), (1 << 20) + 5, 5 * (1 << 19) + 7, 3 * (1 << 20) + 1):
+        yield _mk('det_paths', [[3, 5, 9] * 6], 1, [3, 5], [9], steps, True, 21, src='corpus-det')
+    yield _mk('det_paths', [[1, 2, 3, 4, 5] * 4], 2, [1], [4], (1 << 20) + 77, True, 22, src='corpus-det')
     n = {'quick': 250, 'thorough': 4000, 'search': 800}[tier] * boost
     for _ in range(n):
         ns = rng.randint(2, 6)
@@ -80,7 +86,47 @@ def real(case):
     else:
         trajs = [np.repeat(np.array(t, dtype=np.int8), L) for t in case['trajs']]
     cap = {}
+    if not case['bad'] and L == 1 and case['op'] != 'det_paths':
+        # the same frames, split differently, analysed just before in the same process: nothing may leak into this call
+        flat = np.concatenate(trajs)
+        decoy = [flat] if len(trajs) > 1 else [flat[:len(flat) // 2], flat[len(flat) // 2:]]
+        try:
+            ts.propagate_MCMC(decoy, case['lag'], 2)
+        except Exception:  # noqa
+            pass
     np.random.seed(case['useed'] & 0x7fffffff)
+    if case['op'] == 'det_paths':
+        orig = ts._propagate_MCMC
+
+        def wrapper(cummat, start, steps):
+            cap['cum'], cap['perm'], cap['start'], cap['steps'] = cummat[0].copy(), cummat[1].copy(), int(start), int(steps)
+            return orig(cummat=cummat, start=start, steps=steps)
+        ts._propagate_MCMC = wrapper
+        try:
+            res = core.call(lambda: mh.msm.estimate_paths(trajs=trajs, lagtime=case['lag'], start=case['S'], final=case['F'], steps=case['steps']))
+        finally:
+            ts._propagate_MCMC = orig
+        if 'err' in res:
+            return {'err': res['err']}
+        states = np.unique(np.concatenate(trajs))
+        # reconstruct the only possible realisation: every cumulative row jumps to 1 at its first column
+        if not all(row[0] == 1.0 for row in cap['cum']):
+            return {'err': 'HarnessException', 'msg': 'model is not deterministic'}
+        nxt = [int(row[0]) for row in cap['perm']]
+        chain = np.empty(cap['steps'], dtype=np.int64)
+        cur = cap['start']
+        period = []
+        while cur not in period:
+            period.append(cur)
+            cur = nxt[cur]
+        if cur != period[0]:
+            return {'err': 'HarnessException', 'msg': 'not a pure cycle'}
+        chain = np.array(period, dtype=np.int64)[np.arange(cap['steps']) % len(period)]
+        exp = mh.md.estimate_paths([states[chain]], case['S'], case['F'])
+
+        def canon(d, mult=1):
+            return sorted([[int(x) for x in k], sorted(int(v) * mult for v in vs)] for k, vs in d.items())
+        return {'ok': {'dict': canon(res['ok']), 'expected': canon(exp), 'steps': cap['steps']}}
     if case['op'] == 'paths':
         orig = ts._propagate_MCMC
 
@@ -150,7 +196,7 @@ def _cap(cap, trajs):
 
 
 def request(case, obs):
-    if 'cap' not in obs:
+    if 'cap' not in obs or case['op'] == 'det_paths':
         return {'op': 'ping'}
     c = obs['cap']
     us = ['%d/%d' % (k, G) for k in c['us']]
@@ -171,6 +217,8 @@ def _group(tuples):
 def agree(case, obs, reply):
     if case['bad']:
         return obs.get('err') == 'ValueError'
+    if case['op'] == 'det_paths':
+        return 'ok' in obs and obs['ok']['steps'] == case['steps'] and obs['ok']['dict'] == obs['ok']['expected']
     if 'cap' not in obs:
         return False
     if obs['cap']['steps'] != case['steps'] or not reply.get('cum_ok', False):
@@ -199,6 +247,8 @@ def agree(case, obs, reply):
 
 def holds(case, obs, reply):
     ok = agree(case, obs, reply)
+    if case['op'] == 'det_paths':
+        return ok
     if ok and 'ok' in obs and case['op'] != 'paths' and not case['return_list']:
         # density integrates to one over the returned edges
         dens = [Fraction(v) for v in obs['ok']['density']]
